@@ -1,6 +1,6 @@
 CONSTANTS N = 3  Tokens = {"t1", "t2"}  Outcomes = {"ok", "err", "timeout"}  Disabled = FALSE  MaxSteps = 10  Variant = "code"
 SPECIFICATION Spec
 VIEW view
-INVARIANTS TypeOK Counter HealthyIff
+INVARIANTS TypeOK Counter Clock HealthyIff
 PROPERTIES OneSuccessRestores NoCheckAfterExit
 CHECK_DEADLOCK FALSE
